@@ -285,42 +285,41 @@ def decode(c):
   """stepwise decoding with a cache == whole-sequence attention under a causal mask (Linen and NNX, same parameters)"""
   rng = np.random.RandomState(c['seed'])
   Bn, T, Hh, F = c['batch'], c['T'], c['heads'], c['features']
-  x = jnp.asarray(rng.randn(Bn, T, F))
+  bs = tuple(c['bshape']) if c.get('bshape') is not None else (Bn,)      # any number of batch dimensions, none included
+  x = jnp.asarray(rng.randn(*bs, T, F))
   res = {}
   mha = nn.MultiHeadDotProductAttention(num_heads=Hh, qkv_features=Hh * c['dim'], param_dtype=jnp.float64, dtype=jnp.float64)
   variables = mha.init(jax.random.key(c['seed']), x)
-  causal = nn.make_causal_mask(jnp.ones((Bn, T)))
+  causal = nn.make_causal_mask(jnp.ones(bs + (T,)))
   whole = np.asarray(mha.apply(variables, x, mask=causal))
   dec = nn.MultiHeadDotProductAttention(num_heads=Hh, qkv_features=Hh * c['dim'], param_dtype=jnp.float64, dtype=jnp.float64, decode=True)
   cache = dec.init(jax.random.key(0), x)['cache']
   outs = []
   for t in range(T):
-    y, upd = dec.apply({'params': variables['params'], 'cache': cache}, x[:, t:t + 1], mutable=['cache'])
+    y, upd = dec.apply({'params': variables['params'], 'cache': cache}, x[..., t:t + 1, :], mutable=['cache'])
     cache = upd['cache']
-    outs.append(np.asarray(y)[:, 0])
-  step = np.stack(outs, axis=1)
+    outs.append(np.asarray(y)[..., 0, :])
+  step = np.stack(outs, axis=-2)
   res['dev_linen_decode'] = float(np.max(np.abs(step - whole)))
   res['cache_index'] = int(cache['cache_index'])
   # the same with a key-padding mask given by the caller at every decode step: decode == whole-sequence under causal & padding
-  valid = np.ones((Bn, T), dtype=bool)
-  for b in range(Bn):
-    for t in range(1, T):
-      valid[b, t] = rng.rand() < 0.6          # position 0 stays valid: no query row is fully masked
-  pad = jnp.asarray(valid)[:, None, None, :]
+  valid = rng.rand(*bs, T) < 0.6
+  valid[..., 0] = True                        # position 0 stays valid: no query row is fully masked
+  pad = jnp.asarray(valid)[..., None, None, :]
   whole_p = np.asarray(mha.apply(variables, x, mask=nn.combine_masks(causal, pad)))
   cache = dec.init(jax.random.key(0), x)['cache']
   outs = []
   for t in range(T):
-    y, upd = dec.apply({'params': variables['params'], 'cache': cache}, x[:, t:t + 1], mask=pad, mutable=['cache'])
+    y, upd = dec.apply({'params': variables['params'], 'cache': cache}, x[..., t:t + 1, :], mask=pad, mutable=['cache'])
     cache = upd['cache']
-    outs.append(np.asarray(y)[:, 0])
-  res['dev_linen_decode_padding'] = float(np.max(np.abs(np.stack(outs, axis=1) - whole_p)))
+    outs.append(np.asarray(y)[..., 0, :])
+  res['dev_linen_decode_padding'] = float(np.max(np.abs(np.stack(outs, axis=-2) - whole_p)))
   # future positions cannot influence earlier outputs
   x2 = np.array(x)
   t0 = c['T'] // 2
-  x2[:, t0 + 1:] = 1e3 * (1 + rng.rand(Bn, T - t0 - 1, F))
+  x2[..., t0 + 1:, :] = 1e3 * (1 + rng.rand(*bs, T - t0 - 1, F))
   whole2 = np.asarray(mha.apply(variables, jnp.asarray(x2), mask=causal))
-  res['causal_inert'] = bool(np.array_equal(whole[:, :t0 + 1], whole2[:, :t0 + 1]))
+  res['causal_inert'] = bool(np.array_equal(whole[..., :t0 + 1, :], whole2[..., :t0 + 1, :]))
 
   def nx():
     m = nnx.MultiHeadAttention(num_heads=Hh, in_features=F, qkv_features=Hh * c['dim'], param_dtype=jnp.float64, dtype=jnp.float64, decode=False, rngs=nnx.Rngs(0))
@@ -330,8 +329,8 @@ def decode(c):
       getattr(m, name).bias.value = p[name]['bias']
     wn = np.asarray(m(x, mask=causal, decode=False))
     m.init_cache(x.shape, dtype=jnp.float64)
-    outs_n = [np.asarray(m(x[:, t:t + 1], decode=True))[:, 0] for t in range(T)]
-    return {'dev_nnx_whole_vs_linen': float(np.max(np.abs(wn - whole))), 'dev_nnx_decode': float(np.max(np.abs(np.stack(outs_n, axis=1) - wn)))}
+    outs_n = [np.asarray(m(x[..., t:t + 1, :], decode=True))[..., 0, :] for t in range(T)]
+    return {'dev_nnx_whole_vs_linen': float(np.max(np.abs(wn - whole))), 'dev_nnx_decode': float(np.max(np.abs(np.stack(outs_n, axis=-2) - wn)))}
   res['nnx'] = safe(nx)
   return res
 
